@@ -313,10 +313,11 @@ func ZZ_C04_SCM_MapOrder() {
 			zzsym.Cover("order-AssetBind")
 		}
 	case 2:
-		p := &BindSignInfo{BindSignInfo: zzC04StrMap("sign", N, -1, L)}
+		NB := zzsym.Param("NB") // own bound: one map instead of two, so one more entry is affordable
+		p := &BindSignInfo{BindSignInfo: zzC04StrMap("sign", NB, -1, L)}
 		a := append([]byte(nil), zzC04Enc(p.Serialization)...)
 		zzsym.Assert(bytes.Equal(a, zzC04Enc(p.Serialization)), "BindSignInfo encodes to the same bytes regardless of map iteration order")
-		if len(p.BindSignInfo) == N {
+		if len(p.BindSignInfo) == NB {
 			zzsym.Cover("order-BindSignInfo")
 		}
 	}
